@@ -11,9 +11,15 @@ c) compute_return_projection carries the constant core set {context_id,event_typ
 e) the compaction reader's conversion of column values to scalars (ColumnBlockSnapshot::values_to_scalar) contains no wrapping integer cast between u64 and i64: values above i64::MAX are
    converted with a checked TryFrom and kept as text otherwise (noted: values_to_arrow_array casts u64 to i64 for Arrow Int64 columns; Arrow path, not armed).
 d) ScalarValue::to_json / Serialize have an explicit arm per variant; From<serde_json::Value> has an explicit arm per JSON kind.
+(f) fixed-width (I64 / U64 / F64) blocks are laid out `header | [null bitmap] | pad | payload` and the reader finds the payload by aligning header + aux up to 8: in the writer
+(ColumnGroupBuilder::finish and same-file helpers) the aux length handed to every ColumnBlockHeader::new of a block that may carry a bitmap includes the bitmap length, and the alignment pad
+(`% 8`) is computed over a sum that includes it - a pad computed from the header length alone misplaces the payload of every zone that contains a NULL (the column then reads back as all NULL).
+(g) the kind of a value that comes back is decided by the field's declared type, never by what the stored text looks like: a function that turns a stored / carried string cell into one of several
+value kinds by *parsing the text* (str::parse, serde_json::from_str, comparison with "true" / "false" / "null") without receiving the field's type returns `"123"` of a string field as the number 123.
+Armed for the two conversion points on the read path: EventBuilder::add_payload_field (rows rebuilt from segment columns) and ScalarValue::to_json (every response).
 """
-FLOOR = 6
-REQUIRED = ["C07.a1", "C07.a2", "C07.b", "C07.c", "C07.d", "C07.e"]
+FLOOR = 8
+REQUIRED = ["C07.a1", "C07.a2", "C07.b", "C07.c", "C07.d", "C07.e", "C07.f", "C07.g"]
 
 NUM = {"I64", "U64", "F64", "Bool"}
 
@@ -273,3 +279,69 @@ def run(ctx):
             bad.append(("no-checked-conversion", "values_to_scalar no longer converts u64 column values with a checked conversion", None))
         return bad
     ctx.run("C07.e", "K4 EFFECT", "ColumnBlockSnapshot::values_to_scalar", "u64 values survive compaction over their full range", e)
+
+    def f_(inst):
+        fin = F.fn("ColumnGroupBuilder::finish")
+        fam = [fin]
+        for c_ in fin.calls:
+            if not c_.cleanup and c_.local and F.has(c_.nname) and F.info[c_.nname]["file"] == F.info[fin.key]["file"] and c_.nname != fin.key:
+                B = F.fn_exact(c_.nname)
+                if B not in fam:
+                    fam.append(B)
+        bad, n = [], 0
+        for b in fam:
+            for hn in b.find_calls(r"ColumnBlockHeader::new$"):
+                if len(hn.args) < 4:
+                    continue
+                aux = hn.args[3]
+                sl = wide_all(b, aux, partial=False)
+                if all((a_.get("k") is not None) for a_ in [aux]):
+                    continue  # constant aux (no bitmap, no padding): variable-width blocks
+                rems = []
+                for i in sorted(b.live_blocks()):
+                    for st in b.blocks[i]["s"]:
+                        v = st.get("v")
+                        if v and v.get("r") == "bin" and v.get("op") == "Rem" and st["a"][0] in sl:
+                            rems.append((i, v))
+                lens = [c_ for c_ in b.calls if not c_.cleanup and c_.dest and c_.dest[0] in sl and re.search(r"Vec::len$|slice::len$", c_.nname)]
+                if not rems and not lens:
+                    continue
+                n += 1
+                pad_sees_bitmap = False
+                for (i, v) in rems:
+                    rs = wide_all(b, v["a"], partial=False)
+                    if any(c_.dest and c_.dest[0] in rs for c_ in lens):
+                        pad_sees_bitmap = True
+                inst.sites.append("%s @ %s: aux_len <- %d len() call(s), %d `%% 8` pad computation(s), pad covers bitmap=%s" % (b.key.split("::")[-1], sp(b, hn.bb), len(lens), len(rems), pad_sees_bitmap))
+                if not lens:
+                    bad.append(("aux-without-bitmap:%s" % b.key.split("::")[-1], "%s: the aux length of a padded block does not include the null bitmap length" % sp(b, hn.bb), None))
+                elif rems and not pad_sees_bitmap:
+                    bad.append(("pad-ignores-bitmap:%s" % b.key.split("::")[-1], "%s: the alignment pad is computed without the null bitmap length: the payload of a zone containing a NULL starts where the reader does not look" % sp(b, hn.bb), None))
+        if n < 3:
+            raise AnchorMissing("padded fixed-width block headers in ColumnGroupBuilder::finish (found %d, confirmed 3: I64, U64, F64)" % n)
+        return bad
+    ctx.run("C07.f", "K7 PROV", "ColumnGroupBuilder::finish (fixed-width blocks)", "the alignment pad accounts for the null bitmap", f_)
+
+    def g_(inst):
+        bad = []
+        TY = re.compile(r"FieldType|LogicalType|PhysicalType|schema::types")
+        for nm, what in (("EventBuilder::add_payload_field", "a payload cell read back from a segment"), ("ScalarValue::to_json", "a Utf8 value on its way into a response")):
+            b = F.fn(nm)
+            sees_type = any(TY.search(b.local_ty(l)) for l in range(1, b.argc + 1)) or any(TY.search(c_.nname) for c_ in b.calls if not c_.cleanup)
+            probes = sorted({c_.nname.split("::")[-1] if "from_str" not in c_.nname else "serde_json::from_str" for c_ in b.calls if not c_.cleanup and re.search(r"str::parse$|FromStr>::from_str$|serde_json::from_str$|sonic_rs::from_str$", c_.nname)})
+            consts = sorted({l[1].strip('"') for blk in b.live_blocks() for st in [b.blocks[blk]["t"]] if st.get("t") == "call" for a_ in st.get("args", []) for l in b.origins(a_) if l[0] == "const" and l[1].strip('"') in ("true", "false", "null")})
+            kinds = set()
+            for (bb, j, v, dst) in b.aggregates("ScalarValue"):
+                kinds.add(v["var"])
+            for (bb, j, v, dst) in b.aggregates("Value"):
+                if "serde_json" in str(v.get("adt")):
+                    kinds.add("Json" + v["var"])
+            for c_ in b.calls:
+                m_ = re.search(r"ScalarValue::(Int64|Float64|Boolean|Utf8|Timestamp)$", c_.nname)
+                if m_ and not c_.cleanup:
+                    kinds.add(m_.group(1))
+            inst.sites.append("%s: receives the declared type=%s, probes the text with %s, produces %s" % (nm, sees_type, probes or consts, sorted(kinds)))
+            if not sees_type and probes:
+                bad.append(("content-typed:%s" % nm, "%s chooses the kind of %s by parsing its text (%s) without knowing the field's declared type: a string that looks like a number / boolean / null / JSON comes back as that" % (nm, what, ", ".join(probes)), None))
+        return bad
+    ctx.run("C07.g", "K10 READS", "EventBuilder::add_payload_field / ScalarValue::to_json", "the kind of a returned value comes from the schema, not from the stored text", g_)
